@@ -1,7 +1,9 @@
-(* C15: jitrestrict_with_count, plain safety (the contract used by its callers is in
-   Inv/Jitrestrict_with_count_spec.v when present). *)
+(* C15: jitrestrict_with_count.  Besides safety, the contract its callers rely on (jitcount,
+   _jitcontinuous_perievent, _jitperievent_trigger_average and the Python wrappers): the returned
+   index array holds positions of time_array, the counts are non-negative integers, one per
+   interval, and they add up to the number of returned positions. *)
 From Coq Require Import ZArith QArith String List Bool Lia.
-From Verif Require Import Jit.Lang Jit.Interp Jit.Safety Jit.Tactics Gen.Kernels.
+From Verif Require Import Jit.Lang Jit.Interp Jit.Safety Jit.Tactics Jit.ArrayFacts Gen.Kernels.
 Import ListNotations.
 Open Scope Z_scope.
 Local Open Scope string_scope.
@@ -10,20 +12,61 @@ Definition Pre_jitrestrict_with_count (args : list value) : Prop :=
   exists d1 d2 d3 ta s e,
     args = [Ar (A1 d1 ta); Ar (A1 d2 s); Ar (A1 d3 e)] /\ zlen s = zlen e.
 
+(* result contract, as a function of the arguments *)
+Definition post_rwc (args rs : list value) : Prop :=
+  match args, rs with
+  | Ar (A1 _ ta) :: Ar (A1 _ s) :: _, [Ar (A1 _ ix); Ar (A1 _ cnt)] =>
+      idx_ok (zlen ta) ix = true /\ zlen cnt = zlen s /\ cnt_inv cnt (zlen ix)
+  | _, _ => False
+  end.
+Definition shape_rwc : list rkind := [RA1 DInt; RA1 DInt].
+
 Definition ann_jitrestrict_with_count (l : nat) : annot :=
   match l with
   | 0%nat => ALoop [("k", KInt)] (fun st0 st => 0 <= getZ st "k")
   | 1%nat => ALoop [("k", KInt); ("t", KInt); ("x", KInt); ("ix", KArr); ("count", KArr)]
-                   (fun st0 st => 0 <= getZ st "k" /\ 0 <= getZ st "x" <= getZ st "t")
+                   (fun st0 st => 0 <= getZ st "k" /\ 0 <= getZ st "x" <= getZ st "t"
+                                  /\ ix_inv (getZ st0 "n") (getD st "ix") (getZ st "x")
+                                  /\ cnt_inv (getD st "count") (getZ st "x"))
   | 2%nat => ALoop [("t", KInt)] (fun st0 st => getZ st0 "t" <= getZ st "t")
-  | 3%nat => ALoop [("k", KInt); ("t", KInt); ("x", KInt); ("ix", KArr); ("count", KArr)]
-                   (fun st0 st => getZ st "k" = getZ st0 "k" /\ 0 <= getZ st "x" <= getZ st "t")
+  | 4%nat => ALoop [("k", KInt); ("t", KInt); ("x", KInt); ("ix", KArr); ("count", KArr)]
+                   (fun st0 st => getZ st "k" = getZ st0 "k" /\ 0 <= getZ st "x" <= getZ st "t"
+                                  /\ ix_inv (getZ st0 "n") (getD st "ix") (getZ st "x")
+                                  /\ cnt_inv (getD st "count") (getZ st "x"))
   | _ => ANone
   end.
+
+Theorem k_jitrestrict_with_count_spec : forall fuel args, Pre_jitrestrict_with_count args ->
+  match run fuel k_jitrestrict_with_count args with
+  | Err _ => False
+  | Return rs => conforms shape_rwc rs /\ post_rwc args rs
+  | _ => True
+  end.
+Proof.
+  intros fuel args (d1 & d2 & d3 & ta & s & e & -> & H).
+  unfold run.
+  apply run_sound with (ann := ann_jitrestrict_with_count)
+    (R := fun rs => conforms shape_rwc rs /\ post_rwc [Ar (A1 d1 ta); Ar (A1 d2 s); Ar (A1 d3 e)] rs).
+  wp_compute k_jitrestrict_with_count ann_jitrestrict_with_count.
+  lazy beta iota delta [conforms shape_rwc post_rwc].
+  vc k_jitrestrict_with_count ann_jitrestrict_with_count.
+  all: try assumption.
+  all: try apply ix_inv_0; try apply cnt_inv_zeros.
+  all: try (apply ix_inv_step; [assumption | arith | arith]).
+  all: try (apply cnt_inv_incr; [assumption | arith]).
+  all: try match goal with
+           | Hi : ix_inv _ ?d ?x |- idx_ok _ (pyslice ?d 0 ?x) = true => exact (proj2 Hi)
+           | Hi : ix_inv _ ?d ?x |- cnt_inv _ (zlen (pyslice ?d 0 ?x)) =>
+               rewrite (zlen_pyslice_0 d x (proj1 Hi)); assumption
+           end.
+Qed.
 
 Theorem k_jitrestrict_with_count_safe : forall args, Pre_jitrestrict_with_count args ->
   forall fuel, safe_outcome (run fuel k_jitrestrict_with_count args).
 Proof.
-  intros args (d1 & d2 & d3 & ta & s & e & -> & H) fuel.
-  safe_start k_jitrestrict_with_count ann_jitrestrict_with_count. vc k_jitrestrict_with_count ann_jitrestrict_with_count.
+  intros args HP fuel. pose proof (k_jitrestrict_with_count_spec fuel args HP) as S.
+  destruct (run fuel k_jitrestrict_with_count args); simpl; auto.
 Qed.
+
+Lemma find_rwc : find_func all_kernels "jitrestrict_with_count" = Some k_jitrestrict_with_count.
+Proof. reflexivity. Qed.
